@@ -77,3 +77,10 @@ package common
 //@ func CryptoRandRead
 //@   flag trusted
 //@   modifies elems(buf)
+
+// WebSocket transport (C05): message writes are serialised by writeM held exclusively, one message per call.
+//@ func (*WebSocketConn).Write
+//@   requires notHeld: !held(ws.writeM)
+//@   atcall WriteMessage requires exclusive: heldx(ws.writeM)
+//@   ensures ret1 == nil ==> ret0 == len(data)
+//@   flag noframe
